@@ -74,7 +74,7 @@ func genC05(t *rapid.T) c05Case {
 			}
 		}
 	}
-	c.End = rapid.SampledFrom([]string{"open", "open", "close", "halfclose"}).Draw(t, "end")
+	c.End = rapid.SampledFrom([]string{"open", "open", "close", "halfclose", "streamerror"}).Draw(t, "end")
 	return c
 }
 
@@ -175,6 +175,9 @@ func runC05(c c05Case) vh.Result {
 					break
 				}
 			}
+			if c.End == "streamerror" {
+				wc.Send("<stream:error xmlns:stream='" + peer.NSStream + "'><system-shutdown xmlns='urn:ietf:params:xml:ns:xmpp-streams'/></stream:error>")
+			}
 			o.answers = countAnswers(wc.Transcript())
 			obsc <- o
 			if c.End != "open" {
@@ -241,6 +244,13 @@ func runC05(c c05Case) vh.Result {
 				}
 			}
 			switch c.End {
+			case "streamerror":
+				// the server ends the stream with a stream error; everything sent before it must still be routed
+				pc.Send("<stream:error><system-shutdown xmlns='urn:ietf:params:xml:ns:xmpp-streams'/></stream:error></stream:stream>")
+				o.answers = countAnswers(pc.Transcript())
+				obsc <- o
+				pc.GracefulClose(3 * time.Second)
+				return
 			case "close":
 				o.answers = countAnswers(pc.Transcript())
 				obsc <- o
@@ -386,7 +396,7 @@ func peer10s() time.Duration { return 10 * time.Second }
 
 var c05 = vh.Define(&vh.Def[c05Case]{
 	Property: "C05", Name: "inbound",
-	Rule: "inbound histories of 0-40 top-level elements (message, presence, iq result/error/get/set with unique ids and sizes from empty to 30 KB, <r/>, <a/> with a huge and with a zero h, stream features, <enabled/>, SASL success) x {client over TCP, client over WebSocket, component over TCP} x stream management {negotiated, requested but not offered, off} x a segmentation (TCP write sizes 1-9000 / WebSocket continuation frames) x ending {stay open, close, half-close}; a catch-all route records what is routed; oracle: after quiescence the multiset of routed ids equals the multiset sent (exactly once each, none foreign), components route in arrival order, with SM on every <r/> is answered (exactly once when the server sent no <a/>); the process must survive (the driver turns a process death into a violation with the journalled case); non-trivial = >= 3 stanzas and (a non-stanza element, a stanza > 4 KB, or a closing end)",
+	Rule: "inbound histories of 0-40 top-level elements (message, presence, iq result/error/get/set with unique ids and sizes from empty to 30 KB, <r/>, <a/> with a huge and with a zero h, stream features, <enabled/>, SASL success) x {client over TCP, client over WebSocket, component over TCP} x stream management {negotiated, requested but not offered, off} x a segmentation (TCP write sizes 1-9000 / WebSocket continuation frames) x ending {stay open, close, half-close, stream error}; a catch-all route records what is routed; oracle: after quiescence the multiset of routed ids equals the multiset sent (exactly once each, none foreign), components route in arrival order, with SM on every <r/> is answered (exactly once when the server sent no <a/>); the process must survive (the driver turns a process death into a violation with the journalled case); non-trivial = >= 3 stanzas and (a non-stanza element, a stanza > 4 KB, or a closing end)",
 	Quick: 1200, Thorough: 40000, Journal: true,
 	Gen: genC05, Run: runC05,
 })
